@@ -597,7 +597,7 @@ fn exec(sc: &Scn, render: bool) -> RunOutput {
     h.str(&format!("{:?} {:?} {:?} {} {} {}", res.0, l.err, got_pushes, l.inn.len(), finish_from_e, l.shutdown_ok));
     drop(l);
     drop(res);
-    let out = RunOutput { steps: w.sim.steps, fingerprints: fps, outcome: h.0, violations: viol, witnesses: wit, horizon, rendering: render.then(|| log.join(" ")) };
+    let out = RunOutput { blocked: false, steps: w.sim.steps, fingerprints: fps, outcome: h.0, violations: viol, witnesses: wit, horizon, rendering: render.then(|| log.join(" ")) };
     w.sim.teardown();
     let _ = &mon;
     out
